@@ -353,6 +353,54 @@ theorem pop_sweep {g : Graph V} (wf : WF g) (mix : M → V → V → V) {i : Nat
     unfold upd
     by_cases hki : k = i <;> simp [hki]
 
+/-- the sweep of one population variable inside an iteration -/
+structure Sweep (V : Type) where
+  var : Nat
+  blocks : List (Block V)
+
+/-- The population part of one MCMC iteration (`for sampler in samplers: sampler.sample(...)`): the sweeps of
+    several population variables one after the other, on the same state. -/
+def popIteration (g : Graph V) (mix : M → V → V → V) (d : V) (s : St V) (ws : List (Sweep V)) : St V :=
+  ws.foldl (fun s w => popSweep g mix w.var d s w.blocks) s
+
+/-- **Several population variables, any number of sweeps.**  After the sweeps of any list of population variables
+    (the same variable may come back), with any decisions, each sampled variable holds its initial value with exactly
+    its own accepted changes applied in order, no rejected proposal of one variable leaves a trace in another, nothing
+    else changed, and the state is consistent (so every later read is the from-scratch value, by C01). -/
+theorem pop_iteration {g : Graph V} (wf : WF g) (mix : M → V → V → V) (d : V) :
+    ∀ (ws : List (Sweep V)) (s : St V), Inv g s → s.mode = true →
+      (∀ w ∈ ws, w.var < g.n ∧ g.kind w.var = .indep true ∧ (absS g s w.var).isSome ∧
+        ∀ b ∈ w.blocks, (∀ j ∈ b.readsBefore, j < g.n) ∧ (∀ j ∈ b.readsAfter, j < g.n)) →
+      Inv g (popIteration g mix d s ws) ∧ (popIteration g mix d s ws).mode = true ∧
+      absS g (popIteration g mix d s ws) =
+        ws.foldl (fun a w => upd a w.var ((a w.var).map
+          (fun x => w.blocks.foldl (fun x b => if b.accepted then b.change x else x) x))) (absS g s) := by
+  intro ws
+  induction ws with
+  | nil => intro s h hm _; exact ⟨h, hm, rfl⟩
+  | cons w ws ih =>
+    intro s h hm hw
+    obtain ⟨hi, hk, hset, hb⟩ := hw w (by simp)
+    obtain ⟨x, hx⟩ := Option.isSome_iff_exists.1 hset
+    have hv : s.vals w.var = some x := (vals_of_abs hk rfl).trans hx
+    obtain ⟨r1, r2, r3⟩ := pop_sweep wf mix hi hk d w.blocks s x h hm hv hb
+    have hrest : ∀ w' ∈ ws, w'.var < g.n ∧ g.kind w'.var = .indep true ∧
+        (absS g (popSweep g mix w.var d s w.blocks) w'.var).isSome ∧
+        ∀ b ∈ w'.blocks, (∀ j ∈ b.readsBefore, j < g.n) ∧ (∀ j ∈ b.readsAfter, j < g.n) := by
+      intro w' hw'
+      obtain ⟨a1, a2, a3, a4⟩ := hw w' (by simp [hw'])
+      refine ⟨a1, a2, ?_, a4⟩
+      rw [r2]
+      unfold upd
+      by_cases e : w'.var = w.var
+      · simp [e]
+      · simpa [e] using a3
+    obtain ⟨q1, q2, q3⟩ := ih _ r1 r3 hrest
+    simp only [popIteration, List.foldl_cons] at q1 q2 q3 ⊢
+    refine ⟨q1, q2, ?_⟩
+    rw [q3, r2, hx]
+    rfl
+
 /-! ### the documented precondition of a per-individual revert, structurally -/
 
 /-- With values as functions of the individual index (`IVal R = Nat → R`; population-level values are the constant
